@@ -359,7 +359,8 @@ def rgb_fractal(ctx, n, level):
 
 
 @scenario('C13', 'fractals', lambda tier: [{'which': w, 'dimension': dm, 'level': l} for w in ('cantor_dust', 'multisponge', 'vicsek_fractal')
-                                            for dm in (2, 3) for l in (1, 2) if not (w == 'cantor_dust' and False)])
+                                            for (dm, ls) in ((1, (1, 2, 3, 4, 5, 6, 7, 8, 9)), (2, (1, 2, 3, 4, 5) if tier == 'quick' else (1, 2, 3, 4, 5, 6)), (3, (1, 2, 3)))
+                                            for l in ls if not (dm == 1 and w != 'cantor_dust')])     # multisponge / vicsek_fractal require dimension > 1
 def fractals(ctx, which, dimension, level):
     """cantor_dust / multisponge / vicsek_fractal == Kronecker power of their level-1 generator; generator == defining pattern (concrete, exact)"""
     mdl = ctx.R.models
